@@ -61,9 +61,18 @@ def run_wrapper(rng, obs):
                 if maxfun is None: eff_maxfun = dim * kw['npop'] * 1000
                 obs.event('wrapper_default_limits')
             else: kw['maxiter'] = maxiter = eff_maxiter = 60
+    elif which == 'fmin' and (maxiter is None or maxfun is None) and dim <= 2 and rng.random() < 0.6:
+        # fmin with a limit left to its documented default (nDim*nPop*200, nPop = 1 for Nelder-Mead) and tolerances that can never be met:
+        # the run ends on a limit and the flag must name it   (Powell's line search does not accept such tolerances: not driven this way)
+        off = K.make_cost(cost_spec); probe.f = (lambda x, off=off: off(x) + 7.0)
+        kw['xtol'] = kw['ftol'] = -1.0
+        default = dim * 200
+        if maxiter is None: eff_maxiter = default
+        if maxfun is None: eff_maxfun = default
+        obs.event('wrapper_default_limits')
     out = {'fmin': fmin, 'fmin_powell': fmin_powell, 'diffev': diffev, 'diffev2': diffev2}[which](probe, x0, **kw)
     it, fc, wf = int(out[2]), int(out[3]), int(out[4])
-    obs.desc = {'wrapper': which, 'dim': dim, 'cost': cost_spec, 'x0': x0, 'maxiter': maxiter, 'maxfun': maxfun}
+    obs.desc = {'wrapper': which, 'dim': dim, 'cost': cost_spec, 'x0': x0, 'maxiter': maxiter, 'maxfun': maxfun, 'tolerances': kw.get('xtol')}
     obs.check(fc == probe.n, 'c05:wrapper funcalls equals the real number of cost calls', wrapper=which, observed=fc, expected=probe.n)
     maxiter_given, maxfun_given = maxiter, maxfun
     maxiter, maxfun = eff_maxiter, eff_maxfun
